@@ -333,7 +333,9 @@ func (o *structFieldsCBOR) FromCBOR(dm cbor.DecMode, data []byte) error {
 	}
 
 	if additionalInfo != 31 { // definite-length map (possibly empty)
-		o.Fields = make(map[int]cbor.RawMessage, mapLen)
+		// note: mapLen is declared by the sender; do not reserve memory
+		// for entries that may not be present in the input
+		o.Fields = make(map[int]cbor.RawMessage)
 
 		for i := 0; i < mapLen; i++ {
 			rest, err = o.unmarshalKeyValue(dm, rest)
